@@ -423,6 +423,8 @@ func (r *R) pinRules() {
 				r.Violate(rule, construct, r.pos(site), fmt.Sprintf("snapshot pinned at %s can reach the exit at %s without being released or handed over (%s); events seen: %v", r.pos(site), r.pos(res.LeakExit), blocksStr(res.LeakPath), evs))
 			case res.Double[0] != nil:
 				r.Violate(rule, construct, r.pos(site), fmt.Sprintf("snapshot released at %s and again at %s on one path", r.pos(res.Double[0]), r.pos(res.Double[1])))
+			case res.UseAfter[0] != nil:
+				r.Violate(rule, construct, r.pos(res.UseAfter[1]), fmt.Sprintf("snapshot pinned at %s is released at %s but still used at %s: once the pin is dropped a concurrent flush/merge may release its parts", r.pos(site), r.pos(res.UseAfter[0]), r.pos(res.UseAfter[1])))
 			default:
 				r.Hold(rule, construct, r.pos(site), "events: "+strings.Join(evs, ","))
 			}
